@@ -23,19 +23,23 @@ FINDING_TEXT = {
 
 # mismatch category -> property
 def classify(ev, what, prunes):
-    if what == "outcome":  # a call that panicked or did not return
-        if ev in ("UpdateJustified", "SetPin") or prunes > 0:
-            return "C10"
-        return {"ProcessAttestation": "C09", "Query": "C11"}.get(ev, "C11")
+    """Properties a mismatch speaks about (a tuple). After a prune has happened in the history, wrong heads, wrong
+    query replies and refused votes also concern C10 ("every retained node answers all queries as before, later votes
+    and blocks keep working, and the head stays inside the finalized subtree")."""
+    after_prune = ("C10",) if prunes > 0 else ()
     if what == "node table after Head":
         # internal bookkeeping observed through the verif hook: a localisation aid, not a verdict - the properties
         # speak about the API, and an implementation is free to keep its weights / links differently
-        return "DIAG"
+        return ("DIAG",)
+    if what == "outcome":  # a call that panicked or did not return
+        if ev in ("UpdateJustified", "SetPin"):
+            return ("C10",)
+        return ({"ProcessAttestation": "C09", "Query": "C11"}.get(ev, "C11"),) + after_prune
     if what in ("head after call", "Head", "FindHead") or ev == "ProcessAttestation":
-        return "C09"
+        return ("C09",) + after_prune
     if ev in ("UpdateJustified", "SetPin"):
-        return "C10"
-    return "C11"
+        return ("C10",)
+    return ("C11",) + after_prune
 
 
 MISMATCH_RE = re.compile(r'<<\s*"(MISMATCH|NOTE|DEVIATION)",(.*?)>>\n(?=<<|Model|\s*Estim|Error|Progress|Finished|$)', re.S)
@@ -147,7 +151,8 @@ def process_result(run, path, events, res, deviations):
         if kind == "MISMATCH":
             line, h, ev, what = int(parts[0]), int(parts[1]), parts[2].strip('"'), parts[3].strip('"')
             prunes = sum(1 for e in events[:line] if e["h"] == h and e["ev"] == "UpdateJustified" and e["pruned"])
-            prop = classify(ev, what, prunes)
+            props = classify(ev, what, prunes)
+            prop = run.pid if run.pid in props else props[0]
             bad_hist.add(h)
             rec = (prop, path, line, body[:1500])
             if prop == "DIAG":
